@@ -234,6 +234,66 @@ def _suffix_helpers(prog, cg, chk, W2, roots):
         chk.fail_broken('W2: the file-name / extension helpers were not found among the callees of the path writers')
 
 
+def _default_rows(prog, cg, eff, chk, W9):
+    """A constant the track writers store in a foreign-key column (the "no album art" id) names a row
+    of the referenced table; every supported creator of the generation must insert that row, or
+    PRAGMA foreign_key_check reports every created track."""
+    from .. import schemas
+    from . import c13
+    order = rowrules.enum_order(prog)
+    supported = [en for en in order if en in set(c13._supported(prog))]
+    cats = rowrules.version_catalogs(prog)
+    fmap = schemas.factory_map(prog)
+    for gen in ('v1', 'v2'):
+        vs = [en for en in supported if rowrules._gen2(en) == (gen == 'v2')]
+        if not vs:
+            continue
+        # constants written into FK columns of Track by create_track / update
+        M = fm.FieldModel(prog, cg, eff, assume_schema=order.index(vs[-1]), enum_order=order)
+        consts = {}
+        for which in ('create', 'update'):
+            _, a, _ = M.w_of(gen, which)
+            for w in a.writes:
+                if (w.table or '').lower() != 'track':
+                    continue
+                v = vf._constval(w.value)
+                if isinstance(v, int) and not isinstance(v, bool):
+                    consts.setdefault(w.column, set()).add((v, w.loc))
+        for en in vs:
+            fks = {}
+            for cat in cats[en].values():
+                td = cat.tables.get('track')
+                if td is None:
+                    continue
+                for c in td.columns:
+                    if c.references:
+                        fks[c.name.lower()] = (c.references[0], (c.references[1] or ['id'])[0])
+                for cols, rt, rcols, _, _ in td.fks:
+                    for a_, b_ in zip(cols, rcols or ['id']):
+                        fks[a_.lower()] = (rt, b_)
+            trace = schemas.creation_trace(prog, fmap[en])
+            for col, (rt, rc) in sorted(fks.items()):
+                for (k, loc) in sorted(consts.get(col, ())):
+                    rows = []
+                    for e in trace:
+                        st = e.stmt
+                        if st.kind == 'insert' and (st.table or '').lower() == rt.lower() and st.rows:
+                            names = [c.lower() for c in st.columns] if st.columns else None
+                            for row in st.rows:
+                                idx = names.index(rc.lower()) if names and rc.lower() in names else 0
+                                if idx < len(row):
+                                    rows.append(row[idx].literal())
+                    inst = '%s: the creator inserts the %s row %s = %d that %s stores in Track.%s' % (
+                        en, rt, rc, k, gen + ' create_track / update', col)
+                    if k in rows:
+                        chk.ok(W9, inst, en)
+                    else:
+                        chk.violation(W9, '%s|%s.%s = %d has no %s row' % (en, 'track', col, k, rt.lower()), loc,
+                                      '%s: not found (rows inserted into %s by this creator: %s) - every track the '
+                                      'library creates in such a library refers to a missing %s row, so PRAGMA '
+                                      'foreign_key_check is not clean' % (inst, rt, rows or 'none', rt))
+
+
 def run(tier='quick'):
     prog = program.load()
     cg = callgraph.get(prog)
@@ -305,6 +365,9 @@ def run(tier='quick'):
                   floor=150)
     domains.apply_rule(prog, eff, chk, W7)
     domains.apply_bind_rule(prog, cg, eff, chk, W7)
+    W9 = chk.rule('W9', 'a constant the track writers store in a foreign-key column of Track names a row that every '
+                        'supported creator of the generation inserts (default album art entry)', floor=18)
+    _default_rows(prog, cg, eff, chk, W9)
     W8 = chk.rule('W8', 'the per-version copies of the triggers that keep the 2.x sibling and entry chains and the '
                         'views over them are identical in every supported 2.x version, and every version has them', floor=5)
     c08.chain_trigger_siblings(prog, chk, W8, views=('playlistallparent', 'playlistallchildren', 'playlistpath'))
